@@ -231,6 +231,15 @@ def gen_meta(rng):
     if rng.chance(1, 2):
         for k in rng.shuffle([b"inf", b"info ", b"infoz", b"announce", b"comment", b"zz", b"a", b"info\x00"])[:rng.range(1, 4)]:
             extra_root.append((k, gen_value(rng, 2)))
+    if rng.chance(1, 6):
+        # well-typed `.utf-8` siblings of keys for which the format defines no such variant: they must stay inert
+        k = rng.choice([b"pieces.utf-8", b"piece length.utf-8", b"length.utf-8", b"files.utf-8"])
+        v = {b"pieces.utf-8": b"y" * 20, b"piece length.utf-8": rng.range(1, 9), b"length.utf-8": rng.below(30),
+             b"files.utf-8": [D((b"length", 1), (b"path", [b"zz"]))]}[k]
+        extra_info.append((k, v))
+    if rng.chance(1, 8):
+        other = meta_doc(name=b"other", piece_length=2, length=rng.below(6))
+        extra_root.append((rng.choice([b"info.utf-8", b"info2"]), [v for k, v in other[1] if k == b"info"][0]))
     if rng.chance(1, 2):
         for k in rng.shuffle([b"nam", b"name ", b"namez", b"piece", b"piece lengt", b"piece length ", b"piecesz", b"lengt", b"lengthz", b"file", b"filesz", b"private", b"source", b"name.utf-", b"name.utf-80", b"path"])[:rng.range(1, 4)]:
             extra_info.append((k, gen_value(rng, 2)))
